@@ -8,7 +8,9 @@ like a single call: the model answers for each call on its own (`call_outcome_in
  'c' (what the Lean driver gets):
    ps      [{name, required, dflt, ext, conv, vals, flaskJson}]   the Parameters in declaration order
              dflt/ext: "NOVALUE" | null (None) | value id;   conv: null | [[in id, out id | "REJ"], ...] (value_type given)
-             vals: [{rej: [ids], crash: [ids], map: "mul"|"same"|"none"|"const", k}]   recording validators
+             vals: [{rej: [ids], crash: [ids], map: "mul"|"same"|"none"|"const", k, pn?, wrap?}]   recording validators; `pn` (a name) = the
+             parameter_name the validator's own ValidatorException carries when it rejects (absent: the default ''), `wrap` = the names,
+             from the inside out, of the `Validator.validate_param(value, parameter_name=...)` delegations through which it is reached
    sig     {pos: [{name, dflt}], varArgs, kwOnly: [{name, dflt}], varName, tup}     (`self` is pos[0] for methods; varName = name of
              the VAR_POSITIONAL parameter (absent: `args`); tup = id of the tuple object bind_partial builds from the surplus positionals,
              which the repaired code never hands on as a value)
@@ -20,7 +22,7 @@ the exact sequence of validators it went through).
 """
 import ast, os, sys, io, itertools, tempfile, shutil, importlib.util, contextlib
 
-NAMES = ['self', 'args', 'a', 'b', 'c', 'd', 'zz', 'yy', 'kwargs', 'cls', 'rest']
+NAMES = ['self', 'args', 'a', 'b', 'c', 'd', 'zz', 'yy', 'kwargs', 'cls', 'rest', '']      # '' (index 11) = Lean's emptyName
 NID = {n: i for i, n in enumerate(NAMES)}
 NOV = 'NOVALUE'
 SELF_ID = 90
@@ -175,6 +177,49 @@ def chain_inputs(b, p, i):
     return out
 
 
+def val_c(s):
+    """a recording validator as the driver gets it"""
+    d = {'rej': sorted(s['rej']), 'crash': sorted(s['crash']), 'map': s['map'], 'k': s['k']}
+    if s.get('pn') is not None:
+        d['pn'] = NID[s['pn']]
+    if s.get('wrap'):
+        d['wrap'] = [NID[w] for w in s['wrap']]
+    return d
+
+
+def foreign_name(rng, own, declared):
+    """a parameter_name for a validator's own exception: mostly the name of ANOTHER declared Parameter of the same function"""
+    others = [n for n in declared if n != own]
+    r = rng.random()
+    if others and r < 0.6:
+        return rng.choice(others)
+    if r < 0.7:
+        return own
+    if r < 0.8:
+        return ''
+    return rng.choice(['zz', 'yy', 'a', 'b', 'c', 'd', 'kwargs', 'self'])
+
+
+def label_validators(rng, params, prob=0.3):
+    """some validators raise a ValidatorException that already carries a parameter_name (set by themselves, or by the
+    validate_param() of one or two delegating validators around them)"""
+    declared = [p['name'] for p in params]
+    for p in params:
+        for st in p['vals']:
+            if rng.random() >= prob:
+                continue
+            r = rng.random()
+            if r < 0.35:
+                st['pn'] = foreign_name(rng, p['name'], declared)
+            elif r < 0.75:
+                st['wrap'] = [foreign_name(rng, p['name'], declared)]
+            elif r < 0.9:
+                st['wrap'] = [foreign_name(rng, p['name'], declared), foreign_name(rng, p['name'], declared)]
+            else:
+                st['pn'] = foreign_name(rng, p['name'], declared)
+                st['wrap'] = [foreign_name(rng, p['name'], declared)]
+
+
 def assemble(b, sig, params, strict, ignore, mode, is_async, args, kw, req='none', origin=None, flask=None):
     """sig = {'method', 'pos': [(name, dflt)], 'varArgs', 'kwOnly': [(name, dflt)]};
     params = [{'name', 'kind', 'required', 'dflt', 'ext', 'vt', 'vals', 'raw'}]; args/kw = ids (without the instance)."""
@@ -192,7 +237,7 @@ def assemble(b, sig, params, strict, ignore, mode, is_async, args, kw, req='none
             for i in sorted(cand):
                 conv.append([i, b.conv_out(i, p['vt'])])
         cps.append({'name': NID[p['name']], 'required': p['required'], 'dflt': p['dflt'], 'ext': p['ext'], 'conv': conv,
-                    'vals': [{'rej': sorted(s['rej']), 'crash': sorted(s['crash']), 'map': s['map'], 'k': s['k']} for s in p['vals']],
+                    'vals': [val_c(s) for s in p['vals']],
                     'flaskJson': p['kind'] == 'flaskjson'})
     csig = {'pos': ([{'name': 0, 'dflt': NOV}] if sig['method'] else []) + [{'name': NID[n], 'dflt': d} for n, d in sig['pos']],
             'varArgs': sig['varArgs'], 'kwOnly': [{'name': NID[n], 'dflt': d} for n, d in sig['kwOnly']]}
@@ -294,6 +339,7 @@ def gen_program(rng, b, allow_varargs, n=None):
         elif kind == 'ext' and rng.random() < 0.65:
             ext = pick_value(rng, b, vt)
         params.append({'name': nm, 'kind': kind, 'required': rng.random() < 0.6, 'dflt': dflt, 'ext': ext, 'vt': vt, 'vals': vals, 'raw': raw})
+    label_validators(rng, params)
     return sig, params, rng.random() < 0.6, rng.random() < 0.1, rng.choice(MODES), is_async
 
 
@@ -486,7 +532,8 @@ def _lib():
     from pedantic.decorators.fn_deco_validate.fn_deco_validate import validate, ReturnAs
     from pedantic.decorators.fn_deco_validate.parameters import Parameter, ExternalParameter, EnvironmentVariableParameter
     from pedantic.decorators.fn_deco_validate.validators import Validator
-    from pedantic.decorators.fn_deco_validate.exceptions import (ParameterException, TooManyArguments, ValidateException)
+    from pedantic.decorators.fn_deco_validate.exceptions import (ParameterException, TooManyArguments, ValidateException,
+                                                                 ValidatorException)
     PY_T = {'int': int, 'float': float, 'bool': bool, 'str': str, 'list': list, 'dict': dict, None: None}
     NOVAL = object()
 
@@ -507,13 +554,34 @@ def _lib():
                     ctx.do_call(k)
             r = step_apply(self.spec, i)
             if r[0] == 'rej':
-                self.raise_exception(value=value, msg='rejected by the recording validator')
+                pn = self.spec.get('pn')
+                if pn is None:
+                    self.raise_exception(value=value, msg='rejected by the recording validator')
+                # a validator whose exception already carries a parameter_name (the name of a nested field, of another Parameter, ...)
+                raise ValidatorException(msg='rejected by the recording validator', validator_name=self.name, value=value,
+                                         parameter_name=NAMES[pn])
             if r[0] == 'crash':
                 raise CrashErr(i)
             if r[1] == i:
                 return value
             return ctx.value(r[1])
     VCLS = [type(f'V{j}', (RecV,), {'j': j}) for j in range(4)]
+
+    class Deleg(Validator):
+        """a composite validator that validates (a part of) its value with another validator through the public helper
+        Validator.validate_param(), which labels the delegate's exception with the name of the nested field"""
+
+        def __init__(self, inner, field):
+            self.inner, self.field = inner, field
+
+        def validate(self, value):
+            return self.inner.validate_param(value=value, parameter_name=self.field)
+
+    def make_validator(ctx, pname_id, j, st):
+        v = VCLS[j](ctx, pname_id, st)
+        for w in st.get('wrap', ()):
+            v = Deleg(v, NAMES[w])
+        return v
 
     class HExt(ExternalParameter):
         def __init__(self, ctx, src, **kw):
@@ -529,7 +597,7 @@ def _lib():
 
     def make_param(ctx, cp, xp, evar):
         pname = NAMES[cp['name']]
-        kw = dict(name=pname, validators=[VCLS[j](ctx, cp['name'], st) for j, st in enumerate(cp['vals'])], required=cp['required'])
+        kw = dict(name=pname, validators=[make_validator(ctx, cp['name'], j, st) for j, st in enumerate(cp['vals'])], required=cp['required'])
         if cp['dflt'] != NOV:
             kw['default'] = ctx.value(cp['dflt'])
         if xp['kind'] == 'env':
@@ -822,6 +890,7 @@ def flask_cases(rng, count):
             dflt = NOV if r < 0.6 else (None if r < 0.7 else b.obj())
             vals = [{'rej': set(), 'crash': set(), 'map': 'mul', 'k': j + 1} for j in range(rng.choice([0, 1, 1, 2]))]
             params.append({'name': nm, 'kind': kind, 'required': rng.random() < 0.6, 'dflt': dflt, 'ext': ext, 'vt': vt, 'vals': vals, 'raw': None})
+        label_validators(rng, params)
         if body == 'json' and rng.random() < 0.25:
             fl['json']['zz'] = b.lit("'xq'")           # a key no Parameter asks for (strict + all-JSON: TooManyArguments)
         req = sorted(NID[k] for k in fl['json']) if body == 'json' else 'notjson'
@@ -975,13 +1044,17 @@ def pfail_gate(case, impl, model):
     # *args functions: the gate predicate proper
     if not distinct_parameters(c):
         return None
-    rejected = False
+    rejected = None
     for pn, j, i in impl['journal']:
         for p in c['ps']:
-            if p['name'] == pn and j < len(p['vals']) and i is not None and i in p['vals'][j]['rej']:
-                rejected = True
+            if rejected is None and p['name'] == pn and j < len(p['vals']) and i is not None and i in p['vals'][j]['rej']:
+                rejected = (pn, j)
     if rejected and (ran or impl['out'][0] != 'VAL:Parameter'):
         return f"a validator rejected but the outcome is {impl['out']} (body ran: {ran})"
+    if rejected and impl['out'][1:] != [rejected[0], ['validator', rejected[1]]]:
+        # the exception names the Parameter whose chain rejected - whatever name the validator's own exception carries
+        return (f"validator {rejected[1]} of Parameter {NAMES[rejected[0]]} rejected, but the ParameterException names "
+                f"{NAMES[impl['out'][1]] if 0 <= impl['out'][1] < len(NAMES) else impl['out'][1]!r} / step {impl['out'][2]}")
     if ran:
         allowed = sp['allowed']
         for n, v in impl['binding']['named']:
@@ -1068,6 +1141,17 @@ def extra_coverage(results):
                 hit('KWARGS_WITHOUT_NONE kept a falsy non-None value')
             if any(v is None for _, v in i['binding']['named']):
                 hit('body saw None')
+        if i['out'][0] == 'VAL:Parameter' and isinstance(i['out'][2], list):
+            # the validator that rejected (the one the model names; correspondence is checked elsewhere)
+            for p_ in cc['ps']:
+                if p_['name'] == i['out'][1] and i['out'][2][1] < len(p_['vals']):
+                    st_ = p_['vals'][i['out'][2][1]]
+                    car = (st_.get('wrap') or [st_.get('pn')])[-1]
+                    if car is not None and car != i['out'][1]:
+                        hit("rejection: the validator's exception carries a foreign parameter_name" + (' (via validate_param)' if st_.get('wrap') else '')
+                            + (', the name of another declared Parameter' if car in declared else ''))
+                        if len(st_.get('wrap') or ()) > 1:
+                            hit('rejection: nested validate_param delegations')
         if cc['req'] != 'none':
             hit('flask request context: ' + ('json' if isinstance(cc['req'], list) else 'not json'))
     return {'cases_by_generator': branches, 'features_hit': dict(sorted(feat.items())), 'scenarios': scn,
@@ -1243,6 +1327,65 @@ def gate_enum(rng):
                                         if where in ins:
                                             p['vals'][where][what].add(ins[where])
                                     out.append(assemble(b, sig, params, True, False, mode, ctr % 4 == 1, args, kw, origin='gate_enum'))
+    return out
+
+
+def naming_enum(rng):
+    """which Parameter a rejection names: 2-3 Parameters, the rejecting validator at every position of a chain of 1-2, its
+    ValidatorException carrying a parameter_name already - set by the validator itself, by the validate_param() of one delegating
+    validator, of two nested ones, or both - equal to ANOTHER declared Parameter of the same function, to its own Parameter, to an
+    undeclared name, or to '' - x the ways the value arrives (positional, keyword in both orders, external source, *args zip) x mode"""
+    out = []
+    ctr = rng.randrange(1000)
+    for n in (2, 3):
+        for target in range(n):
+            for nv in (1, 2):
+                for where in range(nv):
+                    for how in ('pn', 'wrap', 'wrap2', 'pn+wrap'):
+                        for which in ('other', 'own', 'undeclared', 'empty'):
+                            for style in ('pos', 'kw', 'kwrev', 'ext', 'zip'):
+                                for mode in MODES:
+                                    ctr += 1
+                                    b = Builder()
+                                    varargs = style == 'zip'
+                                    names = [['a', 'b', 'c'], ['b', 'a', 'c'], ['args', 'b', 'kwargs'], ['cls', 'a', 'args']][(ctr // 3) % 4][:n]
+                                    if varargs:
+                                        names = ['a', 'b', 'c'][:n]
+                                    sig = {'method': ctr % 3 == 0, 'pos': [] if varargs else [(nm, NOV) for nm in names], 'varArgs': varargs, 'kwOnly': [],
+                                           'varName': ['args', 'rest'][ctr % 2]}
+                                    vals_in = [b.obj() for _ in range(n)]
+                                    order = list(range(n)) if ctr % 2 else list(reversed(range(n)))
+                                    params = []
+                                    for i in order:
+                                        params.append({'name': names[i], 'kind': 'ext' if style == 'ext' else 'plain', 'required': True, 'dflt': NOV,
+                                                       'ext': vals_in[i] if style == 'ext' else NOV, 'vt': None,
+                                                       'vals': [{'rej': set(), 'crash': set(), 'map': 'mul', 'k': j + 1} for j in range(nv)], 'raw': None})
+                                    own = names[target]
+                                    other = names[(target + 1 + (ctr // 7) % (n - 1)) % n]
+                                    car = {'other': other, 'own': own, 'undeclared': ['zz', 'yy'][ctr % 2], 'empty': ''}[which]
+                                    inner = {'other': names[(target + 1) % n], 'own': other, 'undeclared': own, 'empty': other}[which]
+                                    p = [q for q in params if q['name'] == own][0]
+                                    st = p['vals'][where]
+                                    if how == 'pn':
+                                        st['pn'] = car
+                                    elif how == 'wrap':
+                                        st['wrap'] = [car]
+                                    elif how == 'wrap2':
+                                        st['wrap'] = [inner, car]          # the outermost delegation labels last
+                                    else:
+                                        st['pn'], st['wrap'] = inner, [car]
+                                    if style == 'pos':
+                                        args, kw = list(vals_in), []
+                                    elif style == 'kw':
+                                        args, kw = [], list(zip(names, vals_in))
+                                    elif style == 'kwrev':
+                                        args, kw = [], list(reversed(list(zip(names, vals_in))))
+                                    elif style == 'zip':
+                                        args, kw = [vals_in[i] for i in order], []
+                                    else:
+                                        args, kw = [], []
+                                    st['rej'].add(chain_inputs(b, p, vals_in[target])[where])
+                                    out.append(assemble(b, sig, params, bool(ctr % 5), False, mode, ctr % 4 == 1, args, kw, origin='naming_enum'))
     return out
 
 
